@@ -320,7 +320,8 @@ class HistSat(Hist):
             return
         ln = left.net
         n, k = len(ln.inputs), len(ln.outputs)
-        flavour = weighted_choice(rng, [('random', 4), ('rewrite', 3), ('same', 1), ('member', 3), ('mismatch', 2), ('one-gate-off', 3)])
+        flavour = weighted_choice(rng, [('random', 4), ('rewrite', 3), ('same', 1), ('member', 3), ('mismatch', 2), ('one-gate-off', 3),
+                                        ('permuted-labels', 3)])
         right_slot = None
         if flavour == 'member':
             cands = [s for s in self.pop if s is not left and len(s.net.inputs) == n and len(s.net.outputs) == k and s.net.is_acyclic()]
@@ -340,6 +341,23 @@ class HistSat(Hist):
                     if not rn.gates:
                         return
                     rn.outputs.append(rn.outputs[0] if rn.outputs else next(iter(rn.gates)))
+            elif flavour == 'permuted-labels':
+                # same input label set as the left circuit, in a different order: inputs correspond by position
+                rn = (ln.copy() if rng.random() < 0.5 else
+                      gennet.random_net(rng, n, rng.randint(1, 8), self.types(), self.cfg['max_arity'], 'plain', n_outputs=k, prefix='zz'))
+                rn.blocks = {}
+                if len(rn.outputs) != k or len(rn.inputs) != n:
+                    return
+                if rn.inputs != ln.inputs:
+                    ren = dict(zip(rn.inputs, ln.inputs))
+                    if any(v in rn.gates and v not in ren for v in ren.values()):
+                        return
+                    rn = Net({ren.get(g, g): (t, tuple(ren.get(o, o) for o in ops)) for g, (t, ops) in rn.gates.items()},
+                             [ren[x] for x in rn.inputs], [ren.get(o, o) for o in rn.outputs])
+                perm = list(rn.inputs)
+                rng.shuffle(perm)
+                rn.inputs = perm
+                self.res.stats.probes.bump('miter:same-input-labels-in-different-order')
             elif flavour in ('rewrite', 'one-gate-off'):
                 rn = ln.copy()
                 rn.blocks = {}
@@ -458,6 +476,15 @@ class HistSat(Hist):
         if len(mnet.gates) <= 60:
             ms_ = self.new_slot(miter)
             self.settle([ms_], with_copy=False)
+
+    def op_pxor_member(self, op, rng):
+        """A pairwise-xor circuit obtained from the public generator joins the population
+        (and may then be edited in place by later ops, like any other member)."""
+        s = self.pick(rng, lambda s: 1 <= len(s.net.outputs) <= 4)
+        k = len(s.net.outputs) if s is not None else rng.randint(1, 3)
+        real = self.call(lambda: self.m['gen'].generate_pairwise_xor(k), [], True, f'generate_pairwise_xor({k})', family='C13')
+        new = self.new_slot(real)
+        self.settle([new], with_copy=False)
 
     def _miter_operands_unchanged(self, left, right_slot, right_real, rn):
         try:
